@@ -7,10 +7,11 @@
 -/
 import Model.Frame
 import Lemmas.Frame
+import Lemmas.FrameMore
 
 namespace DI.C02
 
-open DI
+open DI DI.FrameMore
 
 /-- whole rows: output row `j` is input row `idx[j]` in every column. -/
 theorem whole_rows [Inhabited α] (col : List α) (idx : List Nat) (j : Nat) (h : j < idx.length) :
@@ -72,5 +73,94 @@ example : uniqueIdx 5 [[some (.i 1), none, some (.i 1), none, some (.i 2)]] = [0
 example : filterOutIdx [true, false, true, false] = [1, 3] := by decide
 example : tailIdx 5 2 = [3, 4] := by decide
 example : dropNaIdx 3 [[some (.i 1), none, some (.i 3)], [none, none, some (.b true)]] = [2] := by decide
+
+/-! ### round 3: sample, the forms of filter, drop_na over several columns, unique as
+    representatives, head / tail partition -/
+
+/-- sample: `slice(np.sort(chosen))` — the rows taken are the chosen rows (a permutation of
+    `chosen`, so as many), every one an input row when the chosen positions are, and — for
+    positions drawn without replacement — in strictly increasing position: the sampled rows keep
+    their original relative order. -/
+theorem sample_rows (chosen : List Nat) :
+    (sampleIdx chosen).Perm chosen ∧
+    (sampleIdx chosen).length = chosen.length ∧
+    (sampleIdx chosen).Pairwise (· ≤ ·) ∧
+    (chosen.Nodup → (sampleIdx chosen).Pairwise (· < ·)) ∧
+    (∀ n, (∀ i ∈ chosen, i < n) → ∀ i ∈ sampleIdx chosen, i < n) :=
+  ⟨sampleIdx_perm chosen, sampleIdx_length chosen, sampleIdx_sorted chosen,
+   fun h => sampleIdx_increasing h, fun _ h => sampleIdx_inrange h⟩
+
+/-- the result of sample is determined by the set of chosen positions: it is THE increasing
+    arrangement of them. -/
+theorem sample_rows_unique (chosen l : List Nat) (hn : chosen.Nodup) (hp : l.Perm chosen)
+    (hl : l.Pairwise (· < ·)) : sampleIdx chosen = l := sampleIdx_unique hn hp hl
+
+/-- the three forms of `filter` select the same rows when they denote the same predicate:
+    * mask form = callable form: the mask `[p(row) for row in rows]` keeps the positions of the
+      rows satisfying `p`;
+    * column = value form: the mask `column == value` is, cell by cell, `cellEq` (for a
+      non-missing value: plain equality of cells; for the missing value: `is_na` when the
+      dtype's missing value equals itself, nothing otherwise), so the rows kept are the
+      positions where the cell equals the value;
+    * several column = value pairs keep the intersection of the rows each pair keeps. -/
+theorem filter_forms_interchangeable :
+    (∀ {α : Type} [Inhabited α] (rows : List α) (p : α → Bool),
+      filterIdx (rows.map p) = (List.range rows.length).filter (fun i => p rows[i]!)) ∧
+    (∀ (naEq : Bool) (col : List Cell) (v : Cell),
+      eqMask naEq col v = col.map (fun x => cellEq naEq x v) ∧
+      filterIdx (eqMask naEq col v) = (List.range col.length).filter (fun i => cellEq naEq col[i]! v)) ∧
+    (∀ (naEq : Bool) (col : List Cell) (b : Key) (i : Nat),
+      i ∈ filterIdx (eqMask naEq col (some b)) ↔ i < col.length ∧ col[i]! = some b) ∧
+    (∀ (n : Nat) (masks : List (List Bool)), (∀ m ∈ masks, m.length = n) →
+      (∀ i, i ∈ filterIdx (andMasks n masks) ↔ i < n ∧ ∀ m ∈ masks, i ∈ filterIdx m) ∧
+      (filterIdx (andMasks n masks)).Pairwise (· < ·)) :=
+  ⟨fun rows p => filterIdx_map rows p,
+   fun naEq col v => ⟨eqMask_eq_map naEq col v, filterIdx_eqMask naEq col v⟩,
+   fun _ _ _ _ => mem_filterIdx_eqMask_some,
+   fun n masks hlen => ⟨fun _ => mem_filterIdx_andMasks hlen, filterIdx_andMasks_sorted n masks⟩⟩
+
+/-- one more pair = one more intersection. -/
+theorem filter_pairs_intersect (n : Nat) (m : List Bool) (ms : List (List Bool)) (hm : m.length = n) :
+    filterIdx (andMasks n (m :: ms)) = (filterIdx m).filter (fun i => (filterIdx (andMasks n ms)).contains i) :=
+  filterIdx_andMasks_cons n m ms hm
+
+/-- drop_na over several columns: a row is dropped iff it has a missing value in ANY named
+    column; the rows kept are those complete in ALL named columns, in order; naming columns in
+    two steps = naming them together; and `drop_na()` WITHOUT column names keeps every row
+    (the Python loop over `colnames` does not run — it does not default to all columns). -/
+theorem drop_na_multi (n : Nat) (cols : List (List Cell)) :
+    (∀ i, i < n → (i ∉ dropNaIdx n cols ↔ ∃ c ∈ cols, isNa c[i]! = true)) ∧
+    dropNaIdx n cols = (List.range n).filter (fun i => cols.all (fun c => !isNa c[i]!)) ∧
+    (∀ cs ds, cols = cs ++ ds →
+      dropNaIdx n cols = (dropNaIdx n cs).filter (fun i => (dropNaIdx n ds).contains i)) ∧
+    dropNaIdx n [] = List.range n :=
+  ⟨fun _ hi => not_mem_dropNaIdx hi, dropNaIdx_eq_filter n cols,
+   fun cs ds h => h ▸ dropNaIdx_append n cs ds, dropNaIdx_nil n⟩
+
+/-- unique: the kept rows are in increasing position; every input row has exactly one kept row
+    with the same key tuple, and that representative is at or before it (its first
+    occurrence); the kept rows read off the frame are the distinct key tuples in order of first
+    appearance, so there are as many as distinct key tuples. -/
+theorem unique_keeps_order_and_represents (n : Nat) (cols : List (List Cell)) :
+    (uniqueIdx n cols).Pairwise (· < ·) ∧
+    (∀ j, j < n → ∃ k, (k ∈ uniqueIdx n cols ∧ k ≤ j ∧ (rowsOf n cols)[k]! = (rowsOf n cols)[j]!) ∧
+      ∀ k', k' ∈ uniqueIdx n cols → (rowsOf n cols)[k']! = (rowsOf n cols)[j]! → k' = k) ∧
+    gather (rowsOf n cols) (uniqueIdx n cols) = (rowsOf n cols).eraseDups ∧
+    (uniqueIdx n cols).length = (rowsOf n cols).eraseDups.length :=
+  ⟨uniqueIdx_sorted n cols, uniqueIdx_represents n cols, gather_uniqueIdx n cols, uniqueIdx_length n cols⟩
+
+/-- head(n) followed by tail(nrow - n) is the whole frame, every row once, in order. -/
+theorem head_tail_partition (nrow n : Nat) (h : n ≤ nrow) :
+    headIdx nrow n ++ tailIdx nrow (nrow - n) = List.range nrow := head_tail_append nrow n h
+
+/-- non-vacuity. -/
+example : sampleIdx [4, 0, 2] = [0, 2, 4] :=
+  sampleIdx_unique (by decide) (by decide) (by decide)
+example : filterIdx (eqMask false [some (.i 1), none, some (.i 1)] (some (.i 1))) = [0, 2] := by decide
+example : filterIdx (eqMask true [some (.s [97]), none] none) = [1] ∧
+    filterIdx (eqMask false [some (.i 1), none] none) = [] := by decide
+example : filterIdx (andMasks 3 [[true, true, false], [false, true, true]]) = [1] := by decide
+example : dropNaIdx 3 [] = [0, 1, 2] := by decide
+example : headIdx 5 2 ++ tailIdx 5 3 = [0, 1, 2, 3, 4] := by decide
 
 end DI.C02
